@@ -48,6 +48,7 @@ type Exec struct {
 	oblSeq     map[string]int
 	modLocs    map[string][]*Term
 	noTypeInv  bool
+	refine     *refineCtx
 	curPos     token.Pos
 }
 
